@@ -84,6 +84,29 @@ TUpdate ==
                     /\ Ev.plen = AbsProcessedLen(Len(fed2))
        /\ gens' = [gens EXCEPT ![Ev.g] = [s EXCEPT !.st = new, !.known = known2, !.fed = fed2]]
 
+\* A long periodic delivery (possibly billions of bytes, possibly many native
+\* update calls) judged in one step through the closed form of Generator.tla.
+\* For three-byte checksums the second and third byte are not computed (their
+\* joint cycle can be 2^24 long): they are taken from the observation.
+TUpdateP ==
+    /\ IsEvent("gen_update_p") /\ Clean
+    /\ gens[Ev.g].live
+    /\ LET s    == gens[Ev.g]
+           lead == IF WLe(WOfNat(8), Ev.n) THEN 8 ELSE WNat(Ev.n)
+           g1   == GenUpdate(s.v, s.st, PeriodicData(Ev.pat, WModSmall(Ev.off, Len(Ev.pat)), lead))
+           off1 == WAddNat(Ev.off, lead)
+           n1   == WSub(Ev.n, WOfNat(lead))
+           rest == SubSeq(Ev.st.ck, 2, s.v.ckLen)
+           new  == IF n1 = WZero THEN g1
+                   ELSE IF WLe(MaxGenLen, g1.len) THEN g1
+                   ELSE GenUpdatePeriodicWide(s.v, g1, Ev.pat, off1, n1, rest)
+           cmp  == IF s.v.ckLen = 1 THEN new ELSE [new EXCEPT !.ck = <<new.ck[1]>> \o rest] IN
+       /\ JsonStateShapeOk(s.v, Ev.st)
+       /\ (n1 # WZero /\ ~WLe(MaxGenLen, g1.len)) => PeriodicPreW(s.v, g1, Ev.pat, off1)
+       /\ StateOfJson(s.v, Ev.st) = cmp
+       /\ Ev.plen = GenProcessedLen(cmp)
+       /\ gens' = [gens EXCEPT ![Ev.g] = [s EXCEPT !.st = StateOfJson(s.v, Ev.st), !.known = FALSE, !.fed = <<>>]]
+
 TClone ==
     /\ IsEvent("gen_clone") /\ Clean
     /\ gens[Ev.g].live
@@ -122,7 +145,7 @@ TDlv ==
        /\ Ev.err_cons = ValidityIsErrOn(val, TRUE)
     /\ UNCHANGED gens
 
-TraceNext == TNew \/ TInject \/ TUpdate \/ TClone \/ TFin \/ TConsts \/ TDlv
+TraceNext == TNew \/ TInject \/ TUpdate \/ TUpdateP \/ TClone \/ TFin \/ TConsts \/ TDlv
 
 TraceSpec == TraceInit /\ [][TraceNext]_vars
 
